@@ -189,6 +189,43 @@ theorem state_keys_routed :
     judged.all (fun t => t.written.all fun k => k.sect == .work || (fieldOf k).isNone ||
       (entriesOf t).any (fun e => some e.field == fieldOf k && e.route == some e.field)) = true := by decide +kernel
 
+/-! ## restoring element totals through `SOLUTION_MODIFY -totals` (`cxxNameDouble::merge_redox`) -/
+
+/-- after merging a plain element total no valence-state entry of that element remains, the element holds the merged value and
+entries of other elements are untouched — for every map and every name -/
+theorem merge_plain_total {V : Type} (m : NameDouble V) (n : String) (v : V) (hn : isRedox n = false) :
+    (∀ x ∈ mergeOne m (n, v), startsWith (n ++ "(") x.1 = false) ∧ ndGet (mergeOne m (n, v)) n = some v ∧
+    (∀ k, k ≠ n → startsWith (n ++ "(") k = false → ndGet (mergeOne m (n, v)) k = ndGet m k) :=
+  mergeOne_plain m n v hn
+
+/-- merging a valence-state total removes the plain entry of its element -/
+theorem merge_valence_total {V : Type} (m : NameDouble V) (n : String) (v : V) (hn : isRedox n = true) :
+    ndGet (mergeOne m (n, v)) (eltName n) = none ∧ ndGet (mergeOne m (n, v)) n = some v :=
+  mergeOne_redox m n v hn
+
+/-- a whole `-totals` block of plain element names: every listed element ends with exactly the listed total and without any
+valence-state entry, whatever valence distribution the solution held before -/
+theorem modify_element_totals {V : Type} (src : NameDouble V) (hplain : ∀ e ∈ src, isRedox e.1 = false)
+    (hnd : (src.map (·.1)).Nodup) (m : NameDouble V) :
+    ∀ e ∈ src, ndGet (mergeRedox m src) e.1 = some e.2 ∧ ∀ x ∈ mergeRedox m src, startsWith (e.1 ++ "(") x.1 = false :=
+  mergeRedox_plain src hplain hnd m
+
+/-- non-vacuity and the defect the seeded change introduces: with Fe(2) and Fe(3) stored, merging the plain total `Fe`
+leaves exactly the element total; a variant that erases only the FIRST valence state leaves `Fe(3)` behind -/
+example : mergeRedox [("Fe(2)", 2), ("Fe(3)", 3), ("Na", 5)] [("Fe", (7 : Nat))] = [("Na", 5), ("Fe", 7)] := by decide
+example : mergeRedox [("Fe", 7), ("F", 1)] [("Fe(2)", (2 : Nat))] = [("F", 1), ("Fe(2)", 2)] := by decide
+example : mergeRedox [("F", 1), ("Fe(2)", 2)] [("F", (9 : Nat))] = [("Fe(2)", 2), ("F", 9)] := by decide
+
+/-- negation on a witness: a reader that erased only the FIRST valence state (the seeded change of /verif/seeded/C10) would
+double count the element — `Fe(3)` stays next to the new `Fe` -/
+example :
+    let firstOnly (m : NameDouble Nat) (n : String) (v : Nat) : NameDouble Nat :=
+      match m.find? (fun x => startsWith (n ++ "(") x.1) with
+      | some hit => ndSet (m.filter (· != hit)) n v
+      | none => ndSet m n v
+    firstOnly [("Fe(2)", 2), ("Fe(3)", 3)] "Fe" 7 = [("Fe(3)", 3), ("Fe", 7)] ∧
+    mergeOne [("Fe(2)", 2), ("Fe(3)", 3)] ("Fe", 7) = [("Fe", 7)] := by decide
+
 /-! ## non-vacuity -/
 
 /-- every regenerated table is either judged or exempt (and proved defective above); there are 20 of them -/
